@@ -33,7 +33,7 @@ func (chunkfault) Rule() string {
 		"damaged by a stored-medium fault so that 'same final error' is exercised). Reader side, for each of three caller programs " +
 		"(full traversal, top-level skip, seeded navigation): every two-chunk split point, byte-at-a-time, seeded random and " +
 		"boundary-biased plans (with empty reads and EOF-with-data variants), then a read failure at every byte offset 0..len in four " +
-		"variants (sticky/transient x with/without data x 3 error identities). One index in 16 adds a document holding a string / clob / blob of 4 KiB..200 000 bytes (last in the stream, followed by more, nested) read under chunk plans with pieces of 1000..100 000 bytes, end of data with or after the last bytes, and read failures at offsets around 4096, 8192, 65536 and the end. Writer side, for each writer configuration (text, pretty, both also with TextWriterQuietFinish, binary, binary " +
+		"variants (sticky/transient x with/without data x 4 error identities). One index in 16 adds a document holding a string / clob / blob of 4 KiB..200 000 bytes (last in the stream, followed by more, nested) read under chunk plans with pieces of 1000..100 000 bytes, end of data with or after the last bytes, and read failures at offsets around 4096, 8192, 65536 and the end. Writer side, for each writer configuration (text, pretty, both also with TextWriterQuietFinish, binary, binary " +
 		"with fixed table; one document in six carries a value of 500..3000 bytes): a write failure at every Write call in six variants (sticky/transient x accept nothing / a short prefix / everything). " +
 		"Documents over 600 bytes / 600 write calls have offsets sampled instead of enumerated. A case is distinct by hash of " +
 		"(stored bytes, delivery plan, fault, program) resp. (configuration, call sequence, fault); non-trivial = the fault fired " +
@@ -68,7 +68,7 @@ type cfCase struct {
 }
 
 // Error identities of injected failures: the simulator's own sentinel, and values real readers and writers return.
-var readErrKinds = []string{"", "unexpected-eof", "closed-pipe"}
+var readErrKinds = []string{"", "unexpected-eof", "closed-pipe", "wrapped-eof"}
 var writeErrKinds = []string{"", "short-write", "closed-pipe"}
 
 func errKindName(k string) string {
@@ -213,7 +213,7 @@ func (s chunkfault) largeValues(c *Ctx, r *prng.Rand, text bool) {
 			}
 			for v := 0; v < 4; v++ {
 				p := sim.ReadPlan{Name: "large-chunks", Tail: []int{4096, 8192, 70000, 1000}[(k+v)%4]}
-				p.Fault = &sim.ReadFault{At: k, Sticky: v&1 == 1, WithData: v&2 == 2, ErrKind: readErrKinds[(k+v)%3]}
+				p.Fault = &sim.ReadFault{At: k, Sticky: v&1 == 1, WithData: v&2 == 2, ErrKind: readErrKinds[(k+v)%4]}
 				rc := drive.ReadCase{KeepSID: true, Data: data, Plan: p, Prog: prog}
 				oc := drive.RunRead(rc)
 				c.Steps += int64(oc.Reads)
@@ -358,7 +358,7 @@ func (s chunkfault) readSide(c *Ctx, r *prng.Rand, data []byte, marks []render.M
 	}
 	// R2: a read failure at every byte.
 	for _, k := range offsets {
-		for v := 0; v < 12; v++ {
+		for v := 0; v < 16; v++ {
 			var p sim.ReadPlan
 			switch (k + v) % 3 {
 			case 0:
@@ -551,7 +551,8 @@ func (s chunkfault) writeSide(c *Ctx, r *prng.Rand, vals []*model.Value) {
 	finishIdx := len(ops) - 1
 	all := append(append([]drive.WOp(nil), ops...), writeProbes...)
 	cfgs := []drive.WriterCfg{{Kind: "text"}, {Kind: "pretty"}, {Kind: "binary"}, {Kind: "binary-lst", LSTSymbols: symbolTexts(vals)},
-		{Kind: "text", Quiet: true}, {Kind: "pretty", Quiet: true}}
+		{Kind: "text", Quiet: true}, {Kind: "pretty", Quiet: true},
+		{Kind: "text", Shared: sharedPool[:1]}, {Kind: "pretty", Shared: sharedPool[1:]}, {Kind: "binary", Shared: sharedPool[:1]}}
 	for _, cfg := range cfgs {
 		base := drive.RunWrite(cfg, all, sim.WritePlan{}, false)
 		c.Steps += int64(base.Sink.Calls)
